@@ -1,6 +1,60 @@
-(* Properties_C04.v -- property theorems only (placeholder until the proofs land). *)
-From SC Require Import Base Cfg Comb ModStr ModMem.
+(* Properties_C04.v -- C04: a failed call leaves no partial result
+   Only theorem statements, each closed by [exact <lemma>], with Print Assumptions beneath. *)
+From Coq Require Import List ZArith Lia Bool.
+From SC Require Import Base Wp Cfg Comb CombProofs CopySpec ModStr ModMem ProofsStr ProofsMem SpecStr SpecMem PropStr FnProps PropDefs.
 From SC.Gen Require Import Consts.
+Import ListNotations.
+Local Open Scope Z_scope.
+
+(* link from the wp statements below to executions: for every allocation-failure oracle,
+   the result and final memory of [run] satisfy the postcondition *)
+Theorem C04_wp_sound : forall (A : Type) (fail : nat -> bool) (p : prog A) st Q,
+  wp p (wm st) Q -> let '(a, st') := run fail p st in Q a (wm st').
+Proof. exact (@wp_run). Qed.
+Print Assumptions C04_wp_sound.
+
+(* ---- copy / concatenate family (generated from the table in harness/gen_fnprops.py) ---- *)
+Theorem C04_strcpy_s : forall (c : cfg) (d dmax s destbos : Z) (m : mem) (L : Z), pre_strcpy_s c d dmax s destbos m L ->
+  wp (strcpy_s c d dmax s destbos) m (fun r m' => r <> EOK -> cleared c 1 m' d dmax).
+Proof. exact strcpy_s_C04. Qed.
+Print Assumptions C04_strcpy_s.
+Theorem C04_wcscpy_s : forall (c : cfg) (d dmax s destbos : Z) (m : mem) (L g : Z), pre_wcscpy_s c d dmax s destbos m L g ->
+  wp (wcscpy_s c d dmax s destbos) m (fun r m' => r <> EOK -> cleared c (wchar_w c) m' d dmax).
+Proof. exact wcscpy_s_C04. Qed.
+Print Assumptions C04_wcscpy_s.
+Theorem C04_strncpy_s : forall (c : cfg) (d dmax s slen destbos srcbos : Z) (m : mem) (t : Z), pre_strncpy_s c d dmax s slen destbos srcbos m t ->
+  wp (strncpy_s c d dmax s slen destbos srcbos) m (fun r m' => r <> EOK -> cleared c 1 m' d dmax).
+Proof. exact strncpy_s_C04. Qed.
+Print Assumptions C04_strncpy_s.
+Theorem C04_strcat_s : forall (c : cfg) (d dmax s destbos : Z) (m : mem) (P L : Z), pre_strcat_s c d dmax s destbos m P L ->
+  wp (strcat_s c d dmax s destbos) m (fun r m' => r <> EOK -> cleared c 1 m' d dmax).
+Proof. exact strcat_s_C04. Qed.
+Print Assumptions C04_strcat_s.
+Theorem C04_strncat_s : forall (c : cfg) (d dmax s slen destbos srcbos : Z) (m : mem) (P t : Z), pre_strncat_s c d dmax s slen destbos srcbos m P t ->
+  wp (strncat_s c d dmax s slen destbos srcbos) m (fun r m' => r <> EOK -> cleared c 1 m' d dmax).
+Proof. exact strncat_s_C04. Qed.
+Print Assumptions C04_strncat_s.
+
+(* memory-copy family: every failure after the entry checks leaves dest zeroed (see mem_copy_post) *)
+Theorem C04_memcpy_s : forall c d dmax s slen destbos srcbos m, d <> 0 -> s <> 0 -> 1 <= dmax -> 1 <= slen -> ((destbos = BOS_UNKNOWN /\ dmax <= rmax_mem c) \/ (destbos <> BOS_UNKNOWN /\ dmax <= destbos)) -> (srcbos = BOS_UNKNOWN \/ slen * 1 <= srcbos) -> wp (memcpy_s c d dmax s slen destbos srcbos) m (mem_copy_post c 1 true d (eff_dmax false dmax destbos) s slen m).
+Proof. intros. exact (mem_copy_gen_spec c 1 (rmax_mem c) false true EOVERFLOW false d dmax s slen destbos srcbos m ltac:(lia) H H0 H1 H2 H3 H4). Qed.
+Print Assumptions C04_memcpy_s.
+Theorem C04_memmove_s : forall c d dmax s slen destbos srcbos m, d <> 0 -> s <> 0 -> 1 <= dmax -> 1 <= slen -> ((destbos = BOS_UNKNOWN /\ dmax <= rmax_mem c) \/ (destbos <> BOS_UNKNOWN /\ dmax <= destbos)) -> (srcbos = BOS_UNKNOWN \/ slen * 1 <= srcbos) -> wp (memmove_s c d dmax s slen destbos srcbos) m (mem_copy_post c 1 false d (eff_dmax false dmax destbos) s slen m).
+Proof. intros. exact (mem_copy_gen_spec c 1 (rmax_mem c) false false EOVERFLOW false d dmax s slen destbos srcbos m ltac:(lia) H H0 H1 H2 H3 H4). Qed.
+Print Assumptions C04_memmove_s.
+Theorem C04_memcpy16_s : forall c d dmax s slen destbos srcbos m, d <> 0 -> s <> 0 -> 1 <= dmax -> 1 <= slen -> ((destbos = BOS_UNKNOWN /\ dmax <= rmax_mem c) \/ (destbos <> BOS_UNKNOWN /\ dmax <= destbos)) -> (srcbos = BOS_UNKNOWN \/ slen * 2 <= srcbos) -> wp (memcpy16_s c d dmax s slen destbos srcbos) m (mem_copy_post c 2 true d (eff_dmax true dmax destbos) s slen m).
+Proof. intros. exact (mem_copy_gen_spec c 2 (rmax_mem c) true true ESLEMAX false d dmax s slen destbos srcbos m ltac:(lia) H H0 H1 H2 H3 H4). Qed.
+Print Assumptions C04_memcpy16_s.
+Theorem C04_memmove16_s : forall c d dmax s slen destbos srcbos m, d <> 0 -> s <> 0 -> 1 <= dmax -> 1 <= slen -> ((destbos = BOS_UNKNOWN /\ dmax <= rmax_mem c) \/ (destbos <> BOS_UNKNOWN /\ dmax <= destbos)) -> (srcbos = BOS_UNKNOWN \/ slen * 2 <= srcbos) -> wp (memmove16_s c d dmax s slen destbos srcbos) m (mem_copy_post c 2 false d (eff_dmax true dmax destbos) s slen m).
+Proof. intros. exact (mem_copy_gen_spec c 2 (rmax_mem c) true false EOVERFLOW false d dmax s slen destbos srcbos m ltac:(lia) H H0 H1 H2 H3 H4). Qed.
+Print Assumptions C04_memmove16_s.
+Theorem C04_memcpy32_s : forall c d dmax s slen destbos srcbos m, d <> 0 -> s <> 0 -> 1 <= dmax -> 1 <= slen -> ((destbos = BOS_UNKNOWN /\ dmax <= rmax_mem c) \/ (destbos <> BOS_UNKNOWN /\ dmax <= destbos)) -> (srcbos = BOS_UNKNOWN \/ slen * 4 <= srcbos) -> wp (memcpy32_s c d dmax s slen destbos srcbos) m (mem_copy_post c 4 true d (eff_dmax true dmax destbos) s slen m).
+Proof. intros. exact (mem_copy_gen_spec c 4 (rmax_mem c) true true ESLEMAX false d dmax s slen destbos srcbos m ltac:(lia) H H0 H1 H2 H3 H4). Qed.
+Print Assumptions C04_memcpy32_s.
+Theorem C04_memmove32_s : forall c d dmax s slen destbos srcbos m, d <> 0 -> s <> 0 -> 1 <= dmax -> 1 <= slen -> ((destbos = BOS_UNKNOWN /\ dmax <= rmax_mem c) \/ (destbos <> BOS_UNKNOWN /\ dmax <= destbos)) -> (srcbos = BOS_UNKNOWN \/ slen * 4 <= srcbos) -> wp (memmove32_s c d dmax s slen destbos srcbos) m (mem_copy_post c 4 false d (eff_dmax true dmax destbos) s slen m).
+Proof. intros. exact (mem_copy_gen_spec c 4 (rmax_mem c) true false EOVERFLOW false d dmax s slen destbos srcbos m ltac:(lia) H H0 H1 H2 H3 H4). Qed.
+Print Assumptions C04_memmove32_s.
+
 Theorem C04_cfg_repo_wf : wf_cfg cfg_repo.
 Proof. exact wf_cfg_repo. Qed.
 Print Assumptions C04_cfg_repo_wf.
